@@ -34,7 +34,7 @@ SHAPES = {
     "comment-angle": ["ShNode"], "comment-angle-empty": ["ShNode"], "comment-nested": ["ShNode"], "comment-unnamed+named": ["ShNode"],
     "comment-flags": ["ShNode"], "comment-alternation": ["ShNode"], "comment-angle-alternation": ["ShNode"], "sinkctx-str": ["ShNode"],
     # product sweep: a capture of a generic root is any of the shapes
-    "product": ["ShNode", "ShList 0", "ShList 1", "ShList 3", "ShTypedNil"],
+    "product": ["ShNode", "ShList 0", "ShList 1", "ShList 3", "ShTypedNil", "ShNilIface"],
 }
 # what kind of node the `$x` capture of a shape is for go/printer (the text of a capture that cannot be sliced out of the
 # file is printed): printable (expression, statement, declaration, spec), a comment, a field list, a gogrep node list of
@@ -53,7 +53,7 @@ READABLE = {"": ["true"], "mem": ["false"], "stale": ["true", "false"]}
 
 def run(c):
     thorough = c.tier == "thorough"
-    c.go2coq_sources = ["filters.go", "filters_types.go", "filters_state.go", "filters_helpers.go"]   # private translator build: another family's generator cannot break this check
+    c.go2coq_sources = ["filters.go", "filters_types.go", "filters_state.go", "filters_helpers.go", "filters_total2.go"]   # private translator build: another family's generator cannot break this check
     c.rule = ("one rule per (filter constructor instance | At() | Do() function, capture shape incl. comment-rule captures) with Report(`$x|$$`) and Suggest(`$x`), run under "
               "(TruncateLen, Go version, fresh/reused state) settings; evaluations count engine runs of one rule under one "
               "setting; a case is distinct by (instance, shape, setting) and non-trivial when the rule delivered reports")
@@ -68,15 +68,15 @@ def run(c):
     c.notes += ["panics inside go/types, gogrep, typematch or quasigo on inputs not covered by the sweep are outside the model",
                 "the documented exception (GetType/GetInterface panicking in a custom filter) is not exercised here"]
 
-    build_own_theories(c, "Base/Outcome.v", "Base/GoInt.v", "Base/GoSlice.v", "Engine/TruncateSpec.v", "Filters/FilterIR.v", "Filters/Totality.v")
-    c.require_theories("Base/*.v", "Engine/TruncateSpec.v", "Filters/FilterIR.v", "Filters/Totality.v")
+    build_own_theories(c, "Base/Outcome.v", "Base/GoInt.v", "Base/GoSlice.v", "Engine/TruncateSpec.v", "Filters/FilterIR.v", "Filters/Totality.v", "Filters/TotalityExt.v")
+    c.require_theories("Base/*.v", "Engine/TruncateSpec.v", "Filters/FilterIR.v", "Filters/Totality.v", "Filters/TotalityExt.v")
 
     gen_ok = False
-    g1 = c.go2coq("filtertotal", "Gen_FilterTotal.v")
+    g1 = c.go2coq("filtertotal", "Gen_FilterTotal.v") and c.go2coq("filtertotal2", "Gen_FilterTotal2.v")
     g2 = c.go2coq("leaf", "Gen_Truncate.v", "-file", "ruleguard/runner.go", "-funcs", "truncateText")
     g3 = c.go2coq("c15extras", "Gen_C15Extras.v")
     if g1:
-        gen_ok = c.coq_compile(["Gen_FilterTotal.v"])
+        gen_ok = c.coq_compile(["Gen_FilterTotal.v", "Gen_FilterTotal2.v"])
     if g1 and g2 and g3 and gen_ok:
         if c.coq_compile(["Gen_Truncate.v", "Gen_C15Extras.v"]):
             c.install_tmpl("C07/Inst_C07.v", "C15/Inst_Truncate.v", "C07/C07.v")
